@@ -186,8 +186,12 @@ impl FileSystem for OverlayFS {
     }
 
     fn remove_file(&self, path: &str) -> VfsResult<()> {
-        // Ensure path exists
-        self.read_path(path)?;
+        // Ensure path exists and removing it cannot orphan anything
+        if self.read_path(path)?.metadata()?.file_type == VfsFileType::Directory
+            && self.read_dir(path)?.next().is_some()
+        {
+            return Err(VfsErrorKind::Other("Not a file".into()).into());
+        }
         let write_path = self.write_path(path)?;
         if write_path.exists()? {
             write_path.remove_file()?;
@@ -199,8 +203,10 @@ impl FileSystem for OverlayFS {
     }
 
     fn remove_dir(&self, path: &str) -> VfsResult<()> {
-        // Ensure path exists
-        self.read_path(path)?;
+        // Ensure path exists, is a directory and has no (visible) children in any layer
+        if self.read_dir(path)?.next().is_some() {
+            return Err(VfsErrorKind::Other("Directory to remove is not empty".into()).into());
+        }
         let write_path = self.write_path(path)?;
         if write_path.exists()? {
             write_path.remove_dir()?;
